@@ -7,6 +7,7 @@
 
 use crate::ber::{SnmpOid, objectid::OidStorage};
 use pyo3::{exceptions::PyValueError, prelude::*};
+use std::cmp::Ordering;
 
 #[pyclass]
 pub struct GetIter {
@@ -37,7 +38,11 @@ impl GetIter {
     // Save oid for next request.
     // Return true if next request may be send or return false otherwise
     pub fn set_next_oid(&mut self, oid: &SnmpOid) -> bool {
-        if self.start_oid.as_borrowed().starts_with(oid) {
+        // Must be within the requested subtree and must move forward,
+        // otherwise a misbehaving agent could make the walk loop forever
+        if self.start_oid.as_borrowed().starts_with(oid)
+            && oid.cmp_arcs(&self.next_oid.as_borrowed()) == Ordering::Greater
+        {
             self.next_oid.store(oid);
             true
         } else {
